@@ -9,23 +9,46 @@ Open Scope N_scope.
 
 Ltac Zify.zify_post_hook ::= Z.div_mod_to_equations.
 
+(** a geometry: [bs] values per block in [nmb] mini-blocks of [vpm] values, a
+    multiple of 8 *)
+Definition geom (bs nmb vpm : nat) : Prop :=
+  bs = (nmb * vpm)%nat /\ N.of_nat vpm mod 8 = 0 /\ (0 < vpm)%nat /\ (0 < nmb)%nat.
+
+Lemma geom_bs_pos bs nmb vpm : geom bs nmb vpm -> (0 < bs)%nat.
+Proof. intros (-> & _ & Hv & Hn). apply Nat.mul_pos_pos; assumption. Qed.
+
+Lemma legal_geom bs nmb : legal_geometry bs nmb -> geom bs nmb (bs / nmb).
+Proof. intros (Hn & He & Hv & H8 & _). repeat split; assumption. Qed.
+
+(** every geometry the format allows is covered *)
+Lemma format_geometry_legal bs nmb : format_geometry bs nmb -> legal_geometry bs nmb.
+Proof.
+  intros (Hb & Hn & _ & Hd & H32 & Hs).
+  assert (He : bs = (nmb * (bs / nmb))%nat).
+  { pose proof (Nat.div_mod bs nmb ltac:(lia)) as E. rewrite Hd in E. lia. }
+  assert (Hq : (0 < bs / nmb)%nat).
+  { destruct (bs / nmb)%nat; [rewrite Nat.mul_0_r in He; lia|lia]. }
+  repeat split; try assumption.
+  pose proof (Nat.div_mod (bs / nmb) 32 ltac:(lia)) as E. rewrite H32, Nat.add_0_r in E.
+  rewrite E. rewrite Nat2N.inj_mul. change (N.of_nat 32) with (8 * 4).
+  rewrite <- N.mul_assoc, N.mul_comm. apply N.mod_mul. discriminate.
+Qed.
+
 (** facts about the constants extracted from the Go source *)
-Lemma block_size_eq : block_size = (num_mini_blocks * mini_block_size)%nat.
-Proof. reflexivity. Qed.
-Lemma mini_block_mod8 : N.of_nat mini_block_size mod 8 = 0.
-Proof. reflexivity. Qed.
-Lemma mini_block_pos : (0 < mini_block_size)%nat.
-Proof. unfold mini_block_size, block_size, num_mini_blocks. cbn. lia. Qed.
-Lemma block_size_pos : (0 < block_size)%nat.
-Proof. unfold block_size. cbn. lia. Qed.
+Lemma go_geometry_format : format_geometry block_size num_mini_blocks.
+Proof. unfold format_geometry. repeat split; vm_compute; try reflexivity; lia. Qed.
+Lemma go_geometry_legal : legal_geometry block_size num_mini_blocks.
+Proof. apply format_geometry_legal, go_geometry_format. Qed.
 Lemma block_size_small : N.of_nat block_size < 2 ^ 64.
 Proof. vm_compute. reflexivity. Qed.
 Lemma num_mini_blocks_small : N.of_nat num_mini_blocks < 2 ^ 64.
 Proof. vm_compute. reflexivity. Qed.
-Lemma vpm_eq : N.to_nat (N.of_nat block_size / N.of_nat num_mini_blocks) = mini_block_size.
+Lemma block_size_128 : N.of_nat block_size = 128.
+Proof. vm_compute. reflexivity. Qed.
+Lemma num_mini_blocks_4 : N.of_nat num_mini_blocks = 4.
+Proof. vm_compute. reflexivity. Qed.
+Lemma mini_block_size_eq : (block_size / num_mini_blocks)%nat = mini_block_size.
 Proof. reflexivity. Qed.
-Lemma nmb_nonzero : N.of_nat num_mini_blocks <> 0.
-Proof. vm_compute. discriminate. Qed.
 
 Global Opaque block_size num_mini_blocks mini_block_size.
 
@@ -265,60 +288,61 @@ Proof.
   intros [->| ->]; unfold in_sint; cbn; lia.
 Qed.
 
-Definition cleared_block (k : N) (last : N) (chunk : list N) : list N :=
-  let block := pad_to block_size 0 chunk in
+Definition cleared_block (bs : nat) (k : N) (last : N) (chunk : list N) : list N :=
+  let block := pad_to bs 0 chunk in
   let deltas := block_delta k last block in
   let m := block_min k deltas in
   let subd := map (fun d => subk k d m) deltas in
-  pad_to block_size 0 (firstn (length chunk) subd).
+  pad_to bs 0 (firstn (length chunk) subd).
 
-Definition block_m (k : N) (last : N) (chunk : list N) : N :=
-  block_min k (block_delta k last (pad_to block_size 0 chunk)).
+Definition block_m (bs : nat) (k : N) (last : N) (chunk : list N) : N :=
+  block_min k (block_delta k last (pad_to bs 0 chunk)).
 
 Lemma pad_to_length {A} n (d : A) l : (length l <= n)%nat -> length (pad_to n d l) = n.
 Proof. intros H. unfold pad_to. rewrite app_length, repeat_length. lia. Qed.
 
-Lemma enc_block_unfold k last chunk :
-  enc_block k last chunk =
-  varint64 (sintZ k (block_m k last chunk))
-    ++ map width_of (chunks num_mini_blocks mini_block_size (cleared_block k last chunk))
-    ++ concat (map emit (chunks num_mini_blocks mini_block_size (cleared_block k last chunk))).
+Lemma enc_block_unfold bs nmb vpm k last chunk :
+  enc_block_g bs nmb vpm k last chunk =
+  varint64 (sintZ k (block_m bs k last chunk))
+    ++ map width_of (chunks nmb vpm (cleared_block bs k last chunk))
+    ++ concat (map emit (chunks nmb vpm (cleared_block bs k last chunk))).
 Proof. reflexivity. Qed.
 
-Lemma dec_block_ok k (Hk : k = 32 \/ k = 64) last chunk rem rest :
+Lemma dec_block_ok bs nmb vpm (Hg : geom bs nmb vpm) k (Hk : k = 32 \/ k = 64) last chunk rem rest :
   last < 2 ^ k -> Forall (fun v => v < 2 ^ k) chunk ->
-  (0 < length chunk <= block_size)%nat ->
-  (length chunk <= rem)%nat -> ((length chunk < block_size)%nat -> rem = length chunk) ->
+  (0 < length chunk <= bs)%nat ->
+  (length chunk <= rem)%nat -> ((length chunk < bs)%nat -> rem = length chunk) ->
   exists m,
     m < 2 ^ k /\
-    varint_dec (enc_block k last chunk ++ rest)
+    varint_dec (enc_block_g bs nmb vpm k last chunk ++ rest)
       = Some (sintZ k m,
-              map width_of (chunks num_mini_blocks mini_block_size (cleared_block k last chunk))
-              ++ concat (map emit (chunks num_mini_blocks mini_block_size (cleared_block k last chunk))) ++ rest)
-    /\ dec_mbs k mini_block_size m
-         (map width_of (chunks num_mini_blocks mini_block_size (cleared_block k last chunk)))
-         (concat (map emit (chunks num_mini_blocks mini_block_size (cleared_block k last chunk))) ++ rest) rem last
+              map width_of (chunks nmb vpm (cleared_block bs k last chunk))
+              ++ concat (map emit (chunks nmb vpm (cleared_block bs k last chunk))) ++ rest)
+    /\ dec_mbs k vpm m
+         (map width_of (chunks nmb vpm (cleared_block bs k last chunk)))
+         (concat (map emit (chunks nmb vpm (cleared_block bs k last chunk))) ++ rest) rem last
        = Some (chunk, (rem - length chunk)%nat, List.last chunk last, rest).
 Proof.
   intros Hlast Hchunk [Hpos Hle] Hrem Hshort.
-  set (m := block_m k last chunk). exists m.
+  destruct Hg as (bs_eq & vpm_mod8 & vpm_pos & nmb_pos).
+  set (m := block_m bs k last chunk). exists m.
   assert (Hkpos : 0 < k) by (destruct Hk; subst; lia).
   assert (Hm : m < 2 ^ k) by (apply block_min_lt, block_delta_lt).
   split; [exact Hm|]. split.
   - rewrite enc_block_unfold, <- !app_assoc.
     rewrite varint64_roundtrip; [reflexivity|].
     apply (in_sint_64_of_k k _ Hk). now apply sintZ_in_range.
-  - set (cb := cleared_block k last chunk).
-    assert (Hcbl : length cb = (num_mini_blocks * mini_block_size)%nat).
-    { subst cb. unfold cleared_block. rewrite pad_to_length; [apply block_size_eq|].
+  - set (cb := cleared_block bs k last chunk).
+    assert (Hcbl : length cb = (nmb * vpm)%nat).
+    { subst cb. unfold cleared_block. rewrite pad_to_length; [exact bs_eq|].
       rewrite firstn_length. lia. }
-    destruct (chunks_exact mini_block_size mini_block_pos num_mini_blocks cb Hcbl) as (Hc & Hf & _).
-    rewrite (dec_mbs_ok k mini_block_size m mini_block_mod8 _ rem last rest Hf).
+    destruct (chunks_exact vpm vpm_pos nmb cb Hcbl) as (Hc & Hf & _).
+    rewrite (dec_mbs_ok k vpm m vpm_mod8 _ rem last rest Hf).
     2:{ rewrite Hc. subst cb. unfold cleared_block, pad_to.
         rewrite firstn_length, map_length, block_delta_length, app_length, repeat_length.
-        replace (Nat.min (length chunk) (length chunk + (block_size - length chunk)))%nat
+        replace (Nat.min (length chunk) (length chunk + (bs - length chunk)))%nat
           with (length chunk) by lia.
-        destruct (Nat.eq_dec (length chunk) block_size) as [E|E].
+        destruct (Nat.eq_dec (length chunk) bs) as [E|E].
         - rewrite skipn_all2; [constructor|].
           rewrite app_length, firstn_length, map_length, block_delta_length, app_length, repeat_length.
           cbn. lia.
@@ -326,27 +350,27 @@ Proof.
           rewrite skipn_app.
           rewrite skipn_all2 by (rewrite firstn_length, map_length, block_delta_length, app_length, repeat_length; lia).
           rewrite firstn_length, map_length, block_delta_length, app_length, repeat_length.
-          replace (length chunk - Nat.min (length chunk) (length chunk + (block_size - length chunk)))%nat with 0%nat by lia.
+          replace (length chunk - Nat.min (length chunk) (length chunk + (bs - length chunk)))%nat with 0%nat by lia.
           cbn [app skipn]. unfold all_zero. apply Forall_forall. intros x Hx.
           apply repeat_spec in Hx. exact Hx. }
     rewrite Hc.
     (* the first [rem] values of the cleared block are the reduced deltas of the chunk *)
     assert (Ef : firstn rem cb = map (fun d => subk k d m) (block_delta k last chunk)).
-    { subst cb. unfold cleared_block. fold (block_m k last chunk). fold m.
+    { subst cb. unfold cleared_block. fold (block_m bs k last chunk). fold m.
       set (X := map (fun d => subk k d m) (block_delta k last chunk)).
       assert (HX : length X = length chunk)
         by (subst X; rewrite map_length, block_delta_length; reflexivity).
       assert (E1 : firstn (length chunk)
-                     (map (fun d => subk k d m) (block_delta k last (pad_to block_size 0 chunk))) = X).
+                     (map (fun d => subk k d m) (block_delta k last (pad_to bs 0 chunk))) = X).
       { unfold pad_to. rewrite block_delta_app, map_app. fold X. rewrite <- HX. apply firstn_app_exact. }
       rewrite E1. unfold pad_to. rewrite firstn_app, HX.
       rewrite (firstn_all2 X) by lia.
-      destruct (Nat.eq_dec (length chunk) block_size) as [E|E].
+      destruct (Nat.eq_dec (length chunk) bs) as [E|E].
       - rewrite E, Nat.sub_diag. cbn [repeat]. rewrite firstn_nil. apply app_nil_r.
       - rewrite (Hshort ltac:(lia)), Nat.sub_diag. cbn [firstn]. apply app_nil_r. }
     rewrite Ef, recon_deltas by assumption. cbn [fst snd].
     f_equal. f_equal. f_equal. f_equal.
-    rewrite Hcbl, <- block_size_eq. lia.
+    rewrite Hcbl, <- bs_eq. lia.
 Qed.
 
 (** * the whole stream *)
@@ -363,37 +387,37 @@ Proof.
   rewrite <- (firstn_skipn n l) at 3. rewrite last_app_default. reflexivity.
 Qed.
 
-Lemma dec_blocks_ok k (Hk : k = 32 \/ k = 64) : forall fuel rest_vals last tail,
+Lemma dec_blocks_ok bs nmb vpm (Hg : geom bs nmb vpm) k (Hk : k = 32 \/ k = 64) : forall fuel rest_vals last tail,
   (length rest_vals <= fuel)%nat ->
   last < 2 ^ k -> Forall (fun v => v < 2 ^ k) rest_vals ->
-  dec_blocks fuel k mini_block_size num_mini_blocks
-    (enc_blocks fuel k last rest_vals ++ tail) (length rest_vals) last
+  dec_blocks fuel k vpm nmb
+    (enc_blocks_g bs nmb vpm fuel k last rest_vals ++ tail) (length rest_vals) last
   = Some (rest_vals, tail).
 Proof.
   induction fuel as [|f IH]; intros vals last tail Hfuel Hlast Hvals.
   - destruct vals; [reflexivity|cbn in Hfuel; lia].
-  - cbn [enc_blocks dec_blocks].
+  - cbn [enc_blocks_g dec_blocks].
     destruct vals as [|v vals'] eqn:Ev; [reflexivity|].
     rewrite <- Ev in *. assert (Hne : (0 < length vals)%nat) by (subst vals; cbn; lia).
     clear Ev v vals'.
     destruct (Nat.eqb_spec (length vals) 0) as [E|_]; [lia|].
-    set (chunk := firstn block_size vals).
-    assert (Hcl : length chunk = Nat.min block_size (length vals)) by (subst chunk; apply firstn_length).
-    pose proof block_size_pos as Hbp.
+    set (chunk := firstn bs vals).
+    assert (Hcl : length chunk = Nat.min bs (length vals)) by (subst chunk; apply firstn_length).
+    pose proof (geom_bs_pos _ _ _ Hg) as Hbp.
     assert (Hchunk : Forall (fun v => v < 2 ^ k) chunk) by (subst chunk; apply Forall_firstn; exact Hvals).
-    destruct (dec_block_ok k Hk last chunk (length vals)
-                (enc_blocks f k (List.last chunk last) (skipn block_size vals) ++ tail)
+    destruct (dec_block_ok bs nmb vpm Hg k Hk last chunk (length vals)
+                (enc_blocks_g bs nmb vpm f k (List.last chunk last) (skipn bs vals) ++ tail)
                 Hlast Hchunk ltac:(lia) ltac:(lia) ltac:(lia)) as (m & Hm & Hvd & Hmb).
     rewrite <- app_assoc, Hvd.
-    assert (Hwl : length (map width_of (chunks num_mini_blocks mini_block_size (cleared_block k last chunk))) = num_mini_blocks).
+    assert (Hwl : length (map width_of (chunks nmb vpm (cleared_block bs k last chunk))) = nmb).
     { rewrite map_length.
-      assert (Hcbl : length (cleared_block k last chunk) = (num_mini_blocks * mini_block_size)%nat).
-      { unfold cleared_block. rewrite pad_to_length; [apply block_size_eq|]. rewrite firstn_length. lia. }
-      destruct (chunks_exact mini_block_size mini_block_pos num_mini_blocks _ Hcbl) as (_ & _ & Hl). exact Hl. }
+      assert (Hcbl : length (cleared_block bs k last chunk) = (nmb * vpm)%nat).
+      { unfold cleared_block. rewrite pad_to_length; [exact (proj1 Hg)|]. rewrite firstn_length. lia. }
+      destruct (chunks_exact vpm (proj1 (proj2 (proj2 Hg))) nmb _ Hcbl) as (_ & _ & Hl). exact Hl. }
     rewrite <- Hwl at 1. rewrite take_bytes_app.
     rewrite wrapZ_sintZ by (destruct Hk; subst; lia || exact Hm).
     rewrite Hmb.
-    replace (length vals - length chunk)%nat with (length (skipn block_size vals))
+    replace (length vals - length chunk)%nat with (length (skipn bs vals))
       by (rewrite skipn_length; lia).
     rewrite IH.
     + f_equal. f_equal. subst chunk. apply firstn_skipn.
@@ -407,15 +431,42 @@ Qed.
 Lemma wrapZ_all k xs : Forall (fun v => v < 2 ^ k) (map (wrapZ k) xs).
 Proof. apply Forall_forall. intros v Hv. apply in_map_iff in Hv. destruct Hv as (z & <- & _). apply wrapZ_lt. Qed.
 
-Theorem dec_enc k (Hk : k = 32 \/ k = 64) xs tail :
-  Forall (in_sint k) xs -> N.of_nat (length xs) < 2 ^ 64 ->
-  dec k (enc k xs ++ tail) = Some (xs, tail).
+Lemma enc_blocks_fuel bs nmb vpm (Hbp : (0 < bs)%nat) k : forall f1 f2 last vals,
+  (length vals <= f1)%nat -> (length vals <= f2)%nat ->
+  enc_blocks_g bs nmb vpm f1 k last vals = enc_blocks_g bs nmb vpm f2 k last vals.
 Proof.
-  intros Hxs Hlen. unfold enc, dec.
+  induction f1 as [|f1 IHf]; intros f2 last vals H1 H2.
+  - destruct vals; [destruct f2; reflexivity|cbn in H1; lia].
+  - destruct f2 as [|f2]; [destruct vals; [reflexivity|cbn in H2; lia]|].
+    cbn [enc_blocks_g]. destruct vals as [|v vals'] eqn:Ev; [reflexivity|].
+    rewrite <- Ev in *. f_equal. apply IHf.
+    + rewrite skipn_length. subst vals. cbn [length] in *. lia.
+    + rewrite skipn_length. subst vals. cbn [length] in *. lia.
+Qed.
+
+Lemma legal_vpm_eq bs nmb : (0 < nmb)%nat ->
+  N.to_nat (N.of_nat bs / N.of_nat nmb) = (bs / nmb)%nat.
+Proof. intros Hn. rewrite <- Nat2N.inj_div. apply Nat2N.id. Qed.
+
+Lemma legal_nmb_small bs nmb : legal_geometry bs nmb -> N.of_nat nmb < 2 ^ 64.
+Proof.
+  intros (Hn & He & Hv & _ & Hs).
+  set (q := (bs / nmb)%nat) in *.
+  assert ((nmb <= bs)%nat) by (rewrite He; destruct q; [lia|rewrite Nat.mul_succ_r; lia]). lia.
+Qed.
+
+(** the specification decoder inverts the encoder at EVERY legal geometry *)
+Theorem dec_enc_g bs nmb (Hl : legal_geometry bs nmb) k (Hk : k = 32 \/ k = 64) xs tail :
+  Forall (in_sint k) xs -> N.of_nat (length xs) < 2 ^ 64 ->
+  dec k (enc_g bs nmb k xs ++ tail) = Some (xs, tail).
+Proof.
+  intros Hxs Hlen. unfold enc_g, dec.
+  pose proof (legal_geom _ _ Hl) as Hg.
+  pose proof (geom_bs_pos _ _ _ Hg) as Hbp.
   assert (Hkpos : 0 < k) by (destruct Hk; subst; lia).
   rewrite <- !app_assoc.
-  rewrite uvarint64_roundtrip by apply block_size_small.
-  rewrite uvarint64_roundtrip by apply num_mini_blocks_small.
+  rewrite uvarint64_roundtrip by (apply Hl).
+  rewrite uvarint64_roundtrip by (apply (legal_nmb_small _ _ Hl)).
   rewrite uvarint64_roundtrip by exact Hlen.
   destruct xs as [|x xs'].
   - rewrite varint64_roundtrip by (unfold in_sint; cbn; lia).
@@ -423,22 +474,13 @@ Proof.
   - inversion Hxs as [|? ? Hx Hxs']; subst.
     rewrite varint64_roundtrip by (apply (in_sint_64_of_k k _ Hk); exact Hx).
     destruct (N.eqb_spec (N.of_nat (length (x :: xs'))) 0) as [E|_]; [cbn in E; lia|].
-    destruct (N.eqb_spec (N.of_nat num_mini_blocks) 0) as [E|_]; [exfalso; exact (nmb_nonzero E)|].
-    rewrite vpm_eq, !Nat2N.id.
+    destruct (N.eqb_spec (N.of_nat nmb) 0) as [E|_]; [destruct Hl; lia|].
+    rewrite legal_vpm_eq by (apply Hl). rewrite !Nat2N.id.
     cbn [map length].
     replace (S (length xs') - 1)%nat with (length (map (wrapZ k) xs')) by (rewrite map_length; lia).
-    pose proof (dec_blocks_ok k Hk (S (length xs')) (map (wrapZ k) xs') (wrapZ k x) tail) as H.
+    pose proof (dec_blocks_ok bs nmb (bs / nmb) Hg k Hk (S (length xs')) (map (wrapZ k) xs') (wrapZ k x) tail) as H.
     (* enc uses fuel = length rest; dec uses fuel = total: align the fuels *)
-    assert (Hfuel : forall f1 f2 last vals, (length vals <= f1)%nat -> (length vals <= f2)%nat ->
-                    enc_blocks f1 k last vals = enc_blocks f2 k last vals).
-    { induction f1 as [|f1 IHf]; intros f2 last vals H1 H2.
-      - destruct vals; [destruct f2; reflexivity|cbn in H1; lia].
-      - destruct f2 as [|f2]; [destruct vals; [reflexivity|cbn in H2; lia]|].
-        cbn [enc_blocks]. destruct vals as [|v vals'] eqn:Ev; [reflexivity|].
-        rewrite <- Ev in *. f_equal. apply IHf.
-        + rewrite skipn_length. pose proof block_size_pos. subst vals. cbn [length] in *. lia.
-        + rewrite skipn_length. pose proof block_size_pos. subst vals. cbn [length] in *. lia. }
-    rewrite (Hfuel (length (map (wrapZ k) xs')) (S (length xs')) (wrapZ k x) (map (wrapZ k) xs'))
+    rewrite (enc_blocks_fuel bs nmb (bs / nmb) Hbp k (length (map (wrapZ k) xs')) (S (length xs')) (wrapZ k x) (map (wrapZ k) xs'))
       by (rewrite map_length; lia).
     rewrite H.
     + f_equal. f_equal. cbn [map]. f_equal.
@@ -450,3 +492,9 @@ Proof.
     + apply wrapZ_lt.
     + apply wrapZ_all.
 Qed.
+
+(** Go's geometry *)
+Theorem dec_enc k (Hk : k = 32 \/ k = 64) xs tail :
+  Forall (in_sint k) xs -> N.of_nat (length xs) < 2 ^ 64 ->
+  dec k (enc k xs ++ tail) = Some (xs, tail).
+Proof. exact (dec_enc_g block_size num_mini_blocks go_geometry_legal k Hk xs tail). Qed.
